@@ -200,9 +200,26 @@ def digest(l):
     return [len(l), h]
 
 
+def ensure_models(header):
+    """The modules a cases file imports must be compiled from the current sources (a property file need not
+    depend on its evaluation entry points, e.g. Model/StatsEval.v)."""
+    mods = []
+    for m in re.finditer(r"From MiniMcmc Require (?:Import|Export) ((?:[A-Za-z_0-9.]+\s*)+)\.", header):
+        mods += m.group(1).split()
+    targets = [x.replace(".", "/") + ".vo" for x in mods]
+    if not targets:
+        return
+    with Lock("coq"):
+        ensure_makefile()
+        rc, out, err = sh(["timeout", "1500", "make", "-j16"] + targets, cwd=COQ, timeout=1600)
+    if rc != 0:
+        raise RuntimeError("building %s failed:\n%s" % (" ".join(targets), (out + err)[-3000:]))
+
+
 def coq_eval(pid, header, terms, shard=250, timeout=1500, use_digest=False, tag=""):
     """Evaluates Gallina terms (each of type `list Z`) inside Coq with vm_compute.
     Returns a list of python lists (or raises)."""
+    ensure_models(header)
     casedir = os.path.join(CACHE, "cases", pid)
     os.makedirs(casedir, exist_ok=True)
     if not tag:
